@@ -772,6 +772,21 @@ func (cs *c20Case) mid(raw []byte) int {
 	return cs.nmid
 }
 
+// c20Signed returns the byte string the BOLT 7 signatures of a message cover:
+// everything after the signature field(s) of the wire encoding.  It is
+// computed from the wire bytes, independently of lnwire's DataToSign.
+func c20Signed(m lnwire.Message) []byte {
+	raw := c20Wire(m)
+	n := 64
+	if _, ok := m.(*lnwire.ChannelAnnouncement1); ok {
+		n = 256
+	}
+	if len(raw) < 2+n {
+		return nil
+	}
+	return raw[2+n:]
+}
+
 // c20Wire serialises a message the way a remote peer would have sent it,
 // without touching the struct (lnwire's ChannelUpdate1.Encode rewrites the
 // extra data, so the extra bytes are appended by hand).
@@ -781,6 +796,7 @@ func c20Wire(m lnwire.Message) []byte {
 	case *lnwire.ChannelUpdate1:
 		c := *a
 		c.ExtraOpaqueData = nil
+		c.InboundFee = lnwire.ChannelUpdate1{}.InboundFee
 		if _, err := lnwire.WriteMessage(&b, &c, 0); err != nil {
 			return nil
 		}
@@ -804,11 +820,21 @@ func c20Wire(m lnwire.Message) []byte {
 // describe renders a message as a symbolic record plus the independently
 // recomputed real signature validity; it also cross-checks the symbolic
 // signature abstraction against the real verification (`sym=` must be 1).
-func (cs *c20Case) describe(m lnwire.Message) (string, uint64) {
+func (cs *c20Case) describe(m lnwire.Message, raw []byte) (string, uint64) {
 	h := cs.h
+	c20Signed := func(x lnwire.Message) []byte {
+		n := 64
+		if _, ok := x.(*lnwire.ChannelAnnouncement1); ok {
+			n = 256
+		}
+		if len(raw) < 2+n {
+			return nil
+		}
+		return raw[2+n:]
+	}
 	switch a := m.(type) {
 	case *lnwire.ChannelAnnouncement1:
-		data, _ := a.DataToSign()
+		data := c20Signed(a)
 		d := h.digID(data)
 		slots := []struct {
 			s lnwire.Sig
@@ -832,7 +858,7 @@ func (cs *c20Case) describe(m lnwire.Message) (string, uint64) {
 			c20hx(a.ExtraOpaqueData), terms[0], terms[1], terms[2], terms[3], d, rv, sym), scid
 
 	case *lnwire.ChannelUpdate1:
-		data, _ := a.DataToSign()
+		data := c20Signed(a)
 		d := h.digID(data)
 		term := h.sigTerm(a.Signature)
 		vk := h.verifyingKeys(a.Signature, data)
@@ -853,7 +879,7 @@ func (cs *c20Case) describe(m lnwire.Message) (string, uint64) {
 			c20hx(a.ExtraOpaqueData), term, d, c20ints(vk), sym), scid
 
 	case *lnwire.NodeAnnouncement1:
-		data, _ := a.DataToSign()
+		data := c20Signed(a)
 		d := h.digID(data)
 		term := h.sigTerm(a.Signature)
 		vk := h.verifyingKeys(a.Signature, data)
@@ -898,7 +924,7 @@ func (cs *c20Case) submitRaw(pid int, raw []byte) {
 		cs.h.skipped++
 		return
 	}
-	desc, scid := cs.describe(m)
+	desc, scid := cs.describe(m, raw)
 	if scid != 0 {
 		cs.scids[scid] = true
 	}
@@ -990,9 +1016,9 @@ type c20Chan struct {
 var c20MainNet = *chaincfg.MainNetParams.GenesisHash
 
 func (h *c20) signCA(a *lnwire.ChannelAnnouncement1, n1, n2, b1, b2 int) {
-	data, err := a.DataToSign()
-	if err != nil {
-		h.t.Fatalf("DataToSign: %v", err)
+	data := c20Signed(a)
+	if data == nil {
+		h.t.Fatalf("cannot serialise")
 	}
 	a.NodeSig1 = h.sign(n1, data)
 	a.NodeSig2 = h.sign(n2, data)
@@ -1045,9 +1071,9 @@ func (h *c20) mkCU(scid lnwire.ShortChannelID, u c20Upd, signer int) *lnwire.Cha
 }
 
 func (h *c20) resignCU(a *lnwire.ChannelUpdate1, signer int) {
-	data, err := a.DataToSign()
-	if err != nil {
-		h.t.Fatalf("DataToSign: %v", err)
+	data := c20Signed(a)
+	if data == nil {
+		h.t.Fatalf("cannot serialise")
 	}
 	a.Signature = h.sign(signer, data)
 }
@@ -1073,9 +1099,9 @@ func (h *c20) mkNA(node int, ts uint32, variant int) *lnwire.NodeAnnouncement1 {
 }
 
 func (h *c20) resignNA(a *lnwire.NodeAnnouncement1, signer int) {
-	data, err := a.DataToSign()
-	if err != nil {
-		h.t.Fatalf("DataToSign: %v", err)
+	data := c20Signed(a)
+	if data == nil {
+		h.t.Fatalf("cannot serialise")
 	}
 	a.Signature = h.sign(signer, data)
 }
@@ -1145,8 +1171,8 @@ func (h *c20) caMutations(c c20Chan, a *lnwire.ChannelAnnouncement1, other *lnwi
 	}
 	signers := []int{c.n1, c.n2, c.b1, c.b2}
 	names := []string{"ns1", "ns2", "bs1", "bs2"}
-	data, _ := a.DataToSign()
-	odata, _ := other.DataToSign()
+	data := c20Signed(a)
+	odata := c20Signed(other)
 	for i := range sigp {
 		i := i
 		pos, bit := h.rng.Intn(64), uint(h.rng.Intn(8))
@@ -1155,8 +1181,13 @@ func (h *c20) caMutations(c c20Chan, a *lnwire.ChannelAnnouncement1, other *lnwi
 		add(names[i]+".otherdig", func(b *lnwire.ChannelAnnouncement1) { *sigp[i](b) = h.sign(signers[i], odata) })
 		// other key, right digest
 		add(names[i]+".otherkey", func(b *lnwire.ChannelAnnouncement1) { *sigp[i](b) = h.sign(9, data) })
-		// the signature of a neighbouring slot
-		add(names[i]+".rot", func(b *lnwire.ChannelAnnouncement1) { *sigp[i](b) = *sigp[(i+1)%4](a) })
+		// the (valid) signature of every other slot
+		for j := range sigp {
+			j := j
+			if j != i {
+				add(names[i]+"<-"+names[j], func(b *lnwire.ChannelAnnouncement1) { *sigp[i](b) = *sigp[j](a) })
+			}
+		}
 	}
 	add("feat", func(b *lnwire.ChannelAnnouncement1) { b.Features.Set(lnwire.FeatureBit(99)) })
 	add("feat.tap", func(b *lnwire.ChannelAnnouncement1) {
@@ -1173,7 +1204,7 @@ func (h *c20) cuMutations(c c20Chan, a *lnwire.ChannelUpdate1, signer, otherSign
 		f(b)
 		out = append(out, c20Mut{name, b})
 	}
-	data, _ := a.DataToSign()
+	data := c20Signed(a)
 	add("chain", func(b *lnwire.ChannelUpdate1) { b.ChainHash[7] ^= 0x80 })
 	add("ts+1", func(b *lnwire.ChannelUpdate1) { b.Timestamp++ })
 	add("ts-1", func(b *lnwire.ChannelUpdate1) { b.Timestamp-- })
@@ -1203,7 +1234,7 @@ func (h *c20) cuMutations(c c20Chan, a *lnwire.ChannelUpdate1, signer, otherSign
 	add("sig.otherdig", func(b *lnwire.ChannelUpdate1) {
 		o := c20CopyCU(a)
 		o.BaseFee += 3
-		od, _ := o.DataToSign()
+		od := c20Signed(o)
 		b.Signature = h.sign(signer, od)
 	})
 	// wrong-direction signer: the other node signs validly, direction bit unchanged
@@ -1220,7 +1251,7 @@ func (h *c20) naMutations(a *lnwire.NodeAnnouncement1, signer, other int) []c20M
 		f(b)
 		out = append(out, c20Mut{name, b})
 	}
-	data, _ := a.DataToSign()
+	data := c20Signed(a)
 	add("node", func(b *lnwire.NodeAnnouncement1) { b.NodeID = h.pub(other) })
 	add("node.bad", func(b *lnwire.NodeAnnouncement1) { b.NodeID = c20BadKey(b.NodeID) })
 	add("ts+1", func(b *lnwire.NodeAnnouncement1) { b.Timestamp++ })
@@ -1238,7 +1269,7 @@ func (h *c20) naMutations(a *lnwire.NodeAnnouncement1, signer, other int) []c20M
 	add("sig.otherdig", func(b *lnwire.NodeAnnouncement1) {
 		o := c20CopyNA(a)
 		o.Timestamp += 5
-		od, _ := o.DataToSign()
+		od := c20Signed(o)
 		b.Signature = h.sign(signer, od)
 	})
 	return out
@@ -1757,10 +1788,13 @@ func (h *c20) caseRandom() {
 			case k < 7:
 				dir := r.Intn(2)
 				if !sentCA[ci] {
-					if early[[2]int{ci, dir}] {
+					// at most one cached update per channel: lnd replays
+					// cached updates concurrently, so the outcome for two
+					// updates of one direction depends on goroutine order.
+					if early[[2]int{ci, 0}] {
 						continue
 					}
-					early[[2]int{ci, dir}] = true
+					early[[2]int{ci, 0}] = true
 				}
 				signer, other := c.n1, c.n2
 				if dir == 1 {
@@ -1890,7 +1924,11 @@ func TestVerifC20(t *testing.T) {
 	for v := 0; v < rep(2, 3); v++ {
 		h.caseAssumeValid(v)
 	}
-	for i := 0; i < rep(60, 1500); i++ {
+	nrand := rep(300, 4000)
+	if d, err := strconv.Atoi(os.Getenv("C20_RANDOM_DIV")); err == nil && d > 0 {
+		nrand /= d
+	}
+	for i := 0; i < nrand; i++ {
 		h.caseRandom()
 	}
 	_ = btcutil.Amount(0)
